@@ -177,11 +177,15 @@ def isForeign (e : Ev) : Bool :=
   else false
 
 /-- skip the events of `synchronize_rcu()`; the first event on a location of ours (`own` = this
-thread's private queue on its stack) is pushed back -/
-partial def syncOpaque (t : Nat) (own : List String) : M Unit := do
+thread's private queue on its stack) is pushed back; the call must really be there (its `urcu_wait_add`) -/
+partial def syncOpaque (t : Nat) (own : List String) (seen : Bool := false) : M Unit := do
   let e ← nextEv t "events of synchronize_rcu()"
-  if isForeign e && !(own.contains (e.arg 0)) then syncOpaque t own
-  else unget t e
+  if isForeign e && !(own.contains (e.arg 0)) then
+    -- every synchronize_rcu() queues itself on the grace-period wait queue (urcu_wait_add = xchg of the stack head)
+    syncOpaque t own (seen || (e.op == "XCHG" && e.arg 0 == "waiters.head"))
+  else do
+    unget t e
+    if !seen then P.fail "expected synchronize_rcu() here (no urcu_wait_add on waiters.head seen)"
 
 /-- futex(FUTEX_WAKE, 1) on `loc`; returns the number of threads woken (ENOSYS: compat = mb, 0) -/
 def futexWake (t : Nat) (loc : String) : M Nat := do
